@@ -735,7 +735,7 @@ func VerifC04_PossibleValues() {
 		o.PossibleValues = []PossibleValue{{Name: "A", Value: "aa"}, {Name: "B", Value: "b"}}
 	case 1:
 		o = addOption("k", OptTypeInt, ReleaseLevelStable, &valueCache{})
-		o.PossibleValues = []PossibleValue{{Name: "one", Value: 1}, {Name: "seven", Value: 7}}
+		o.PossibleValues = []PossibleValue{{Name: "one", Value: 1}, {Name: "seven", Value: 7}, {Name: "big", Value: 300}}
 	case 2:
 		o = addOption("k", OptTypeStringArray, ReleaseLevelStable, &valueCache{})
 		o.PossibleValues = []PossibleValue{{Name: "A", Value: "aa"}, {Name: "B", Value: "b"}}
@@ -745,7 +745,7 @@ func VerifC04_PossibleValues() {
 	if rt.Bool("explicit-looser-pattern") {
 		o.compiledRegex = regexp.MustCompile(`^[a-z0-9]+$`)
 	} else if kind == 1 {
-		o.compiledRegex = regexp.MustCompile(`^(1|7)$`)
+		o.compiledRegex = regexp.MustCompile(`^(1|7|300)$`)
 	} else {
 		o.compiledRegex = regexp.MustCompile(`^(aa|b)$`)
 	}
@@ -753,7 +753,21 @@ func VerifC04_PossibleValues() {
 
 	var v interface{}
 	allowed := false
-	switch rt.Choice("value", 4) {
+	switch rt.Choice("value", 6) {
+	case 4: // a byte slice (a Go value a string converts to)
+		v = []byte("aa")
+	case 5: // narrow integer types (a possible value may not survive the conversion)
+		if rt.Bool("uint8") {
+			v = uint8(44)
+		} else {
+			v = int8(7)
+		}
+		allowed = kind == 1 && !rt.Symbolic() && false
+		if kind == 1 {
+			if _, isInt8 := v.(int8); isInt8 {
+				allowed = true // 7 is in the list
+			}
+		}
 	case 0: // a string
 		str := rt.StrN("s", 0, 2)
 		for i := 0; i < len(str); i++ {
